@@ -358,6 +358,104 @@ func driveC19(t *testing.T, out *vEmitter) {
 	}
 	_ = rand.Int
 	vC19LoggingFormats(t, out)
+	vC19OptionSpellings(t, out)
+}
+
+// vC19OptionSpellings: options with an enumerated or structured value, in the spellings operators and environment files
+// produce (another letter case, surrounding spaces, a stray separator).  Validation may refuse a spelling; a
+// configuration it ACCEPTS must then not panic while requests that set, refresh and delete cookies are served.
+func vC19OptionSpellings(t *testing.T, out *vEmitter) {
+	type sp struct {
+		option string
+		value  string
+		set    func(o *options.Options, v string)
+	}
+	var sps []sp
+	for _, v := range []string{"Lax", "Strict", "None", "LAX", " lax", "lax ", "strict\n", "NONE", "default", "0"} {
+		sps = append(sps, sp{"cookie_samesite", v, func(o *options.Options, v string) { o.Cookie.SameSite = v }})
+	}
+	for _, v := range []string{"_oauth2_proxy ", "a b", "näme", "x;y", "__Host-p", strings.Repeat("n", 300)} {
+		sps = append(sps, sp{"cookie_name", v, func(o *options.Options, v string) { o.Cookie.Name = v }})
+	}
+	for _, v := range []string{"", "relative", "/p ", "/p;x", "//double"} {
+		sps = append(sps, sp{"cookie_path", v, func(o *options.Options, v string) { o.Cookie.Path = v }})
+	}
+	for _, v := range []string{"oauth2", "/oauth2/", "/", "", "/o auth", "/%zz"} {
+		sps = append(sps, sp{"proxy_prefix", v, func(o *options.Options, v string) { o.ProxyPrefix = v }})
+	}
+	for _, v := range []string{"S256 ", "s256", "Plain"} {
+		sps = append(sps, sp{"code_challenge_method", v, func(o *options.Options, v string) { o.Providers[0].CodeChallengeMethod = v }})
+	}
+	for _, v := range []string{"*", "*:*", ".", "*.", ":8080", "[::1]", "[::1]:*", "a..b", " example.com"} {
+		sps = append(sps, sp{"whitelist_domain", v, func(o *options.Options, v string) { o.WhitelistDomains = []string{v} }})
+	}
+	for _, v := range []string{"*", ".", "", " .example.com", "example.com."} {
+		sps = append(sps, sp{"cookie_domain", v, func(o *options.Options, v string) { o.Cookie.Domains = []string{v, ".example.com"} }})
+	}
+	accepted, refused := 0, 0
+	for _, x := range sps {
+		x := x
+		var e *vEnv
+		buildPanic := ""
+		func() {
+			defer func() {
+				if r := recover(); r != nil {
+					buildPanic = fmt.Sprint(r)
+				}
+			}()
+			e = vTryNewEnvNoFatal(t, vEnvCfg{oidc: true, mod: func(o *options.Options) { x.set(o, x.value) }})
+		}()
+		if buildPanic != "" {
+			out.Violation("option-spelling/"+x.option+"/panic", "validating or constructing the proxy panicked on an option value", map[string]interface{}{"option": x.option, "value": x.value, "panic": buildPanic})
+			continue
+		}
+		if e == nil {
+			refused++
+			out.Obs("option-spelling", false, vL(vS(x.option), vS(x.value), vBool(false)))
+			continue
+		}
+		accepted++
+		out.Obs("option-spelling", true, vL(vS(x.option), vS(x.value), vBool(true)))
+		b := e.newBrowser("https://app.example.com")
+		seedPanic := ""
+		func() {
+			// saving a session is what the login callback does: a panic here is a panic of request handling
+			defer func() {
+				if r := recover(); r != nil {
+					seedPanic = fmt.Sprint(r)
+				}
+			}()
+			b.seedSession("user@example.com", time.Minute, 20)
+		}()
+		if seedPanic != "" {
+			out.Violation("option-spelling/"+x.option+"/panic", "an option value accepted by validation made saving a session (the login callback's last step) panic",
+				map[string]interface{}{"option": x.option, "value": x.value, "panic": seedPanic})
+		}
+		prefix := e.opts.ProxyPrefix
+		for _, tg := range []string{"/page", prefix + "/start?rd=%2Fapp", prefix + "/sign_in", prefix + "/callback?code=c&state=abcdefgh:/y", prefix + "/auth",
+			prefix + "/userinfo", prefix + "/sign_out?rd=https%3A%2F%2Fx.example.com%2F", prefix + "/sign_out"} {
+			for _, withCookie := range []bool{true, false} {
+				var hs [][2]string
+				if withCookie {
+					hs = append(hs, [2]string{"Cookie", b.cookieHeader("/")})
+				} else {
+					hs = append(hs, [2]string{"Cookie", e.opts.Cookie.Name + "=junk|1|x"})
+				}
+				req, err := vRawRequest(vBuildRaw("GET", tg, "app.example.com", hs, ""))
+				if err != nil {
+					continue
+				}
+				res := e.serve(req)
+				out.Stat("option_spelling_requests", 1)
+				if res.Panic != nil {
+					out.Violation("option-spelling/"+x.option+"/panic", "an option value accepted by validation made request handling panic",
+						map[string]interface{}{"option": x.option, "value": x.value, "target": tg, "panic": fmt.Sprint(res.Panic)})
+				}
+			}
+		}
+	}
+	out.Stat("option_spellings_accepted", accepted)
+	out.Stat("option_spellings_refused", refused)
 }
 
 // logging formats are operator-supplied templates rendered while a request is handled: a format that
